@@ -32,6 +32,67 @@ pub use crate::program::memory::MemoryAccessType;
 
 mod dependency_queue;
 
+/// Verification hooks: drive the (crate-private) [`DependencyQueue`] with a given access sequence.
+#[cfg(rigetti_quil_rs_verif)]
+pub mod verif_hooks {
+    use super::dependency_queue::DependencyQueue;
+    use super::{InstructionFrameInteraction, MemoryAccessType, ScheduledGraphNode};
+
+    /// Feed `accesses` (instruction index, access type) to a fresh memory dependency queue.
+    /// Returns, per access, the reported dependencies as (access type, node), and the pending
+    /// dependencies of the queue afterwards.
+    #[allow(clippy::type_complexity)]
+    pub fn drive_memory_queue(
+        accesses: &[(usize, MemoryAccessType)],
+    ) -> (
+        Vec<Vec<(MemoryAccessType, ScheduledGraphNode)>>,
+        Vec<(MemoryAccessType, ScheduledGraphNode)>,
+    ) {
+        let mut queue = DependencyQueue::<MemoryAccessType>::new();
+        let mut reported = Vec::with_capacity(accesses.len());
+        for (index, access_type) in accesses {
+            let dependencies = queue.record_access_and_get_dependencies(
+                ScheduledGraphNode::InstructionIndex(*index),
+                *access_type,
+            );
+            reported.push(
+                dependencies
+                    .into_iter()
+                    .map(|dependency| (dependency.access_type, dependency.node_id))
+                    .collect(),
+            );
+        }
+        let pending = queue
+            .into_pending_dependencies()
+            .into_iter()
+            .map(|dependency| (dependency.access_type, dependency.node_id))
+            .collect();
+        (reported, pending)
+    }
+
+    /// Feed `accesses` (instruction index, `true` = using / `false` = blocking) to a fresh frame
+    /// dependency queue.  Returns the reported dependencies per access and the pending ones.
+    pub fn drive_frame_queue(
+        accesses: &[(usize, bool)],
+    ) -> (Vec<Vec<ScheduledGraphNode>>, Vec<ScheduledGraphNode>) {
+        let mut queue = DependencyQueue::<InstructionFrameInteraction>::new();
+        let mut reported = Vec::with_capacity(accesses.len());
+        for (index, using) in accesses {
+            let interaction = if *using {
+                InstructionFrameInteraction::Using
+            } else {
+                InstructionFrameInteraction::Blocking
+            };
+            let dependencies = queue.record_access_and_get_dependencies(
+                ScheduledGraphNode::InstructionIndex(*index),
+                interaction,
+            );
+            reported.push(dependencies.into_iter().collect());
+        }
+        (reported, queue.into_pending_dependencies().into_iter().collect())
+    }
+}
+
 #[derive(Debug, Clone, Copy)]
 pub enum ScheduleErrorVariant {
     DuplicateLabel,
